@@ -166,7 +166,7 @@ res = []
 for first in range(%(nprog)d):
     for second in range(0, 60, 7):
         m = xd.Manager()
-        d = {"a": 3, "b": -2, "c": 5, "n": Obj(x=7, y=1, z=2), "l": [4, 9]}
+        d = {"a": 3, "b": -2, "c": 5, "n": Obj(x=7, y=1, z=2), "l": [4, 9], "__K": {-1: 6, -2: 8}}
         r = m.ref(d, "d")
         fr = m.ref(U.FContainer(lambda x, y: x * 31 + y), "f")
         defs = {}
